@@ -96,7 +96,8 @@ def write_cmake(config: kconfiglib.Kconfig, filename: str, write_deprecated: boo
                     val = ""
                 elif sym.orig_type == kconfiglib.STRING:
                     val = kconfiglib._escape(val)
-                elif sym.orig_type == kconfiglib.HEX:
+                elif sym.orig_type == kconfiglib.HEX and val:
+                    # An option without a value (e.g. no default for the current target) is written as ""
                     val = hex(int(val, 16))
                 f.write(f'set({prefix}{sym.name} "{val}")\n')
 
